@@ -142,6 +142,9 @@ def seed(ds):
     titles = [("Editor", "(2) foo.py - code"), ("Browser", "● news"), ("Editor", "foo.py - code"), ("Game", "Cemu - FPS: 59.2")]
     ds["b1"].insert([Event(timestamp=T0 + timedelta(seconds=10 * i), duration=timedelta(seconds=5 + i % 3), data={"app": a, "title": t, "url": f"http://www.ex{i % 2}.com/p?q={i}", "nested": {"l": [i]}}) for i, (a, t) in enumerate(titles * 2)])
     ds["b2"].insert([Event(timestamp=T0 + timedelta(seconds=25 * i), duration=timedelta(seconds=30), data={"status": "not-afk" if i % 2 == 0 else "afk"}) for i in range(4)])
+    # events sharing one timestamp (ties): consecutive reads must agree on their order, too
+    ds["b1"].insert([Event(timestamp=T0 + timedelta(seconds=30), duration=timedelta(seconds=1 + k), data={"app": "Tie", "title": f"tie {k}", "url": "http://t/"}) for k in range(3)])
+    ds["b2"].insert(Event(timestamp=T0 + timedelta(seconds=25), duration=timedelta(seconds=2), data={"status": "tie"}))
 
 
 def full_dump(ds):
